@@ -4,6 +4,7 @@ Self-tests of the machinery (not registered checks):
 
     selftest.py determinism [--seeds N]   every seed twice in this interpreter (16 and 3 workers) and once in a fresh
                                           interpreter under another PYTHONHASHSEED; event-log digests must be identical
+    selftest.py probes                    the evidence files of the last run: every required reach probe is non-zero
     selftest.py mutants [--only NAME] [--runs N] [--pytest]
                                           every mutant of mutants.py applied to a scratch copy of /repo/src (outside
                                           /repo and /verif, removed afterwards); the property's check must exit 1 with a
@@ -177,6 +178,51 @@ def cmd_mutants(args):
     return 0 if not missed else 1
 
 
+REQUIRED_PROBES = {
+    # evidence keys that must be non-zero after a quick batch: a probe stuck at zero means the workload or the fault
+    # mix no longer reaches what the check is supposed to reach
+    "C10": ["fault_counts.F4_unknown_package", "fault_counts.F3_sibling_cancel", "reach_probes.package_lookups",
+            "out_of_order_completions"],
+    "C11": ["fault_counts.F7_caller_edit", "fault_counts.F6_cache_flood", "fault_counts.F6_cache_evict_all",
+            "reach_probes.reuse_after_edit", "reach_probes.reuse_after_eviction", "reach_probes.cache_hits_cond",
+            "reach_probes.cache_hits_ahb", "reach_probes.parse_caches_found"],
+    "C12": ["fault_counts.F2_sibling_raise", "fault_counts.F3_sibling_cancel", "reach_probes.validity_setter_calls",
+            "out_of_order_completions"],
+    "C13": ["reach_probes.pruned_nodes", "reach_probes.forbidden_nodes", "reach_probes.not_implemented_runs",
+            "reach_probes.soll_false_runs", "fault_counts.F3_sibling_cancel", "out_of_order_completions"],
+    "C15": ["reach_probes.owned_fc_calls", "reach_probes.fc_results_predicted", "reach_probes.elements_compared",
+            "fault_counts.F3_sibling_cancel", "out_of_order_completions"],
+    "C16": ["reach_probes.planted_reached", "reach_probes.planted_pruned", "reach_probes.position_g",
+            "reach_probes.position_s", "reach_probes.position_f", "reach_probes.position_p-entry",
+            "reach_probes.family_multi_part", "reach_probes.family_invalid_inside_package",
+            "fault_counts.F5_invalid_expression"],
+}
+
+
+def cmd_probes(args):
+    """evidence files of the last run: every required probe is non-zero, both parse caches were found"""
+    problems = 0
+    for prop_id, names in REQUIRED_PROBES.items():
+        path = os.path.join(HERE, "evidence", f"{prop_id}.json")
+        with open(path, encoding="utf-8") as stream:
+            evidence = json.load(stream)
+        coverage = evidence["coverage"]
+        for name in names:
+            value = coverage
+            for part in name.split("."):
+                value = (value or {}).get(part) if isinstance(value, dict) else None
+            if not value:
+                print(f"{prop_id}: probe {name} is {value!r}")
+                problems += 1
+        if prop_id == "C11" and coverage["reach_probes"].get("parse_caches_found") != 2 * coverage["evaluations"]:
+            print("C11: the two parse caches were not found in every run (total eviction would be a no-op)")
+            problems += 1
+        print(f"{prop_id}: {len(names)} probes checked, evaluations={coverage['evaluations']}, "
+              f"distinct_nontrivial={coverage['distinct_nontrivial']}, violations={evidence.get('violations')}")
+    print("PROBES-OK" if not problems else f"PROBES-FAILED ({problems})")
+    return 0 if not problems else 1
+
+
 def main():
     parser = argparse.ArgumentParser()
     sub = parser.add_subparsers(dest="command", required=True)
@@ -193,8 +239,10 @@ def main():
     mut.add_argument("--runs", type=int, default=1500)
     mut.add_argument("--pytest", action="store_true")
     mut.add_argument("--skip-clean", action="store_true")
+    sub.add_parser("probes")
     args = parser.parse_args()
-    return {"determinism": cmd_determinism, "_digests": cmd_digests, "mutants": cmd_mutants}[args.command](args)
+    return {"determinism": cmd_determinism, "_digests": cmd_digests, "mutants": cmd_mutants,
+            "probes": cmd_probes}[args.command](args)
 
 
 if __name__ == "__main__":
